@@ -54,6 +54,11 @@ fn main() {
                             emit_group(&mut out, "fault1", &format!("seed={s},class={class}"), &[p]);
                         }
                     }
+                    "fault2" => {
+                        for (class, p) in gen::gen_fault2(s, &gen::Cfg::wf(), 4) {
+                            emit_group(&mut out, "fault2", &format!("seed={s},class={class}"), &[p]);
+                        }
+                    }
                     "wild" => {
                         let (p, faults) = gen::gen_wild(s, &gen::Cfg::wf());
                         emit_group(
